@@ -101,6 +101,7 @@ func zzInferEmpty(e string) string { return e + "any" }
 
 var zzEmpties = []struct{ lit, shape string }{
 	{"[]", "[]"}, {"{}", "{}"}, {"[[]]", "[][]"}, {"[{}]", "[]{}"}, {"{a:[]}", "{}[]"},
+	{"[[[]]]", "[][][]"}, {"[[{}]]", "[][]{}"}, {"{a:[[]]}", "{}[][]"}, {"[[[[]]]]", "[][][][]"}, {"{a:{b:{}}}", "{}{}{}"}, {"[[] [[]]]", "[][][]"},
 }
 
 // ZZC04Assign: target type x kind of value x value type x context.
@@ -714,4 +715,57 @@ func zzAnyfied(t string) string {
 		return t[:2] + zzAnyfied(zzSub(t))
 	}
 	return "any"
+}
+
+// ZZC04Range: `for ... range` takes one string, array or map operand, or one
+// to three num operands (docs/spec.md, "For"); every other combination of
+// operand count and operand types is rejected, whether the operands are
+// variables or literals and whether or not a loop variable is declared.
+func ZZC04Range() {
+	pool := []struct{ src, typ string }{
+		{"n", "num"}, {"s", "string"}, {"b", "bool"}, {"v", "any"}, {"an", "[]num"}, {"aa", "[]any"}, {"mn", "{}num"},
+		{"1", "num"}, {"\"s\"", "string"}, {"true", "bool"}, {"[1]", "[]num"}, {"{a:1}", "{}num"}, {"[]", "[]any"}, {"{}", "{}any"}, {"(n+1)", "num"}, {"an[0]", "num"},
+	}
+	k := 1 + zzChoice("nops", zzParam("RN", 3)+1) // 1..4 operands
+	ops := ""
+	allNum := true
+	first := ""
+	for i := 0; i < k; i++ {
+		o := pool[zzChoice("rop", len(pool))]
+		if i == 0 {
+			first = o.typ
+		}
+		if o.typ != "num" {
+			allNum = false
+		}
+		ops += " " + o.src
+	}
+	withVar := zzChoice("loopvar", 2) == 1
+	hdr := "for range" + ops
+	body := "    print 1\n"
+	if withVar {
+		hdr = "for e := range" + ops
+		body = "    print e\n"
+	}
+	src := "n := 2\ns := \"ab\"\nb := true\nv:any\nan := [1 2]\naa := [1 \"s\"]\nmn := {a:1}\nprint n s b v an aa mn\n" + hdr + "\n" + body + "end\n"
+	want := k <= 3 && allNum || k == 1 && (first == "string" || zzIsComp(first))
+	p := &zzPlat{}
+	ev := NewEvaluator(p)
+	_, err := zzParse(ev, src)
+	if (err == nil) != want {
+		msg := ""
+		if err != nil {
+			msg = err.Error()
+		}
+		zzLog("C04 range: want accepted=" + map[bool]string{true: "yes", false: "no"}[want] + "\n" + hdr + "\n" + msg)
+	}
+	zzAssert((err == nil) == want, "C04 range: a range clause is accepted exactly for one string, array or map operand or one to three num operands")
+	if err == nil {
+		zzReach("range-accepted")
+		rerr := ev.Run(src)
+		zzAssert(rerr == nil || zzAcceptableErr(rerr), "C04 range: an accepted range clause runs")
+	} else {
+		zzReach("range-rejected")
+	}
+	zzWitness("end")
 }
